@@ -303,7 +303,14 @@ def plan(ctx):
         jobs.append((("chain", nd, "future", "await", 3, 1), 1))
         jobs.append((("chain", nd, "native", "burst", 3, 1), 1))
     for a in ("buffer:1", "map_async:1", "rate_limit:1", "timed_window:1", "partition:2:1", "delay:1"):
-        jobs.append((("chain", a, "done", "burst", 3, 1), 0 if a.startswith(("timed_window", "partition", "delay", "rate_limit")) else 1))
+        heavy = a.startswith(("timed_window", "partition", "delay", "rate_limit"))
+        jobs.append((("chain", a, "done", "burst", 3, 1), 0 if heavy else 1))
+        jobs.append((("chain", a, "value", "burst", 3, 1), 0 if heavy else 1))     # a consumer function that returns a plain value
+        jobs.append((("chain", a, "custom", "await", 3, 1), 0 if heavy else 1))
+    # a de-duplicating window is lossless as long as the keys are distinct: all consumer kinds
+    for kind in KINDS:
+        jobs.append((("chain", "timed_window_unique:1:ident:first", kind, "await", 3, 1), 0))
+        jobs.append((("chain", "timed_window_unique:1:ident:last", kind, "burst", 3, 1), 0))
     for nd in ("map_async:1", "map_async:2", "map_async_failing:1", "map_async_failing:2", "buffer:1,map_async_failing:1"):
         jobs.append((("srcchain", nd, "future", 4), 1))
     return jobs
